@@ -65,6 +65,7 @@ type MShape struct {
 	Rets     []RetKind
 	SrcType  bool // parameter 0 (or result 0 when NP==0) is a type of the source package
 	NilP     bool // the fixed parameters have nillable (interface) types
+	TPType   bool // parameter 0 has the interface's type parameter 0 as its type
 }
 
 func (m MShape) String() string {
@@ -83,6 +84,9 @@ func (m MShape) String() string {
 	if m.NilP {
 		s += ",nilP"
 	}
+	if m.TPType {
+		s += ",tpT"
+	}
 	return fmt.Sprintf("p%d%s->[%s]%s", m.NP, v, strings.Join(r, ","), s)
 }
 
@@ -90,6 +94,7 @@ type IShape struct {
 	Methods []MShape
 	NTP     int
 	Lower   bool // struct name starts with a lower-case letter
+	TPLower bool // the type parameters have lower-case names in the source
 }
 
 type Shape struct {
@@ -104,7 +109,11 @@ func (s Shape) String() string {
 		for _, m := range i.Methods {
 			ms = append(ms, m.String())
 		}
-		is = append(is, fmt.Sprintf("{tp%d lower=%v [%s]}", i.NTP, i.Lower, strings.Join(ms, " ")))
+		tl := ""
+		if i.TPLower {
+			tl = " tpLower"
+		}
+		is = append(is, fmt.Sprintf("{tp%d lower=%v%s [%s]}", i.NTP, i.Lower, tl, strings.Join(ms, " ")))
 	}
 	return fmt.Sprintf("out=%v %s", s.OutPkg, strings.Join(is, " "))
 }
@@ -139,6 +148,15 @@ func paramName(ii, mi, pi int) string { return fmt.Sprintf("p%s%dx%d", ifaceLett
 func retName(ii, mi, pi int) string   { return fmt.Sprintf("r%s%dx%d", ifaceLetter(ii), mi, pi) }
 func tpName(ii, pi int) string        { return fmt.Sprintf("Q%s%d", ifaceLetter(ii), pi) }
 
+// tpSrcName is the type parameter's name as written in the source (what
+// types.TypeString prints wherever the parameter is used as a type).
+func (e *Eval) tpSrcName(ii, pi int) string {
+	if e.sh.Ifaces[ii].TPLower {
+		return lowFirst(tpName(ii, pi))
+	}
+	return tpName(ii, pi)
+}
+
 func (e *Eval) srcQ() string {
 	if e.sh.OutPkg {
 		return srcQual
@@ -154,6 +172,9 @@ func (e *Eval) paramType(ii, mi, pi int) string {
 			return "[]" + m.VarElem
 		}
 		return "[]" + depQual + fmt.Sprintf("EP%s%dx%d", ifaceLetter(ii), mi, pi)
+	}
+	if m.TPType && pi == 0 && e.sh.Ifaces[ii].NTP > 0 {
+		return e.tpSrcName(ii, 0)
 	}
 	if m.SrcType && pi == 0 {
 		return e.srcQ() + fmt.Sprintf("SP%s%dx%d", ifaceLetter(ii), mi, pi)
@@ -307,7 +328,7 @@ func (e *Eval) retList(ii, mi int) *List {
 func (e *Eval) pName(o *obj) string {
 	switch {
 	case o.kind == "tparam":
-		return tpName(o.ii, o.pi)
+		return e.tpSrcName(o.ii, o.pi)
 	case o.ret:
 		return retName(o.ii, o.mi, o.pi)
 	}
@@ -483,10 +504,11 @@ func (e *Eval) objField(o *obj, name string, args []tval) (tval, error) {
 			}
 			var parts []string
 			for pi := 0; pi < is.NTP; pi++ {
+				// interface.go applies template_funcs.Exported to the name at these sites
 				if name == "TypeInstantiation" {
-					parts = append(parts, tpName(o.ii, pi))
+					parts = append(parts, capFirst(e.tpSrcName(o.ii, pi)))
 				} else {
-					parts = append(parts, tpName(o.ii, pi)+" "+tpConstraintType(o.ii, pi))
+					parts = append(parts, capFirst(e.tpSrcName(o.ii, pi))+" "+tpConstraintType(o.ii, pi))
 				}
 			}
 			return H("[" + strings.Join(parts, ", ") + "]"), nil
